@@ -1193,6 +1193,15 @@ class RadarCollectionType(Serializable):
         """
 
         requires = (1, 1, 0)
+        # the transmit polarizations: X, Y, S, E and OTHER<text> are SICD 1.3.0 values;
+        # UNKNOWN is a 1.1.0 value of RadarCollection/TxPolarization but not of TxSequence/TxStep/TxPolarization
+        if self.TxPolarization is not None and \
+                self.TxPolarization not in ('V', 'H', 'RHC', 'LHC', 'OTHER', 'UNKNOWN', 'SEQUENCE'):
+            requires = max(requires, (1, 3, 0))
+        if self.TxSequence is not None:
+            for step in self.TxSequence:
+                if step.TxPolarization is not None and step.TxPolarization not in ('V', 'H', 'RHC', 'LHC', 'OTHER'):
+                    requires = max(requires, (1, 3, 0))
         if self.RcvChannels is None:
             return requires
 
